@@ -41,7 +41,8 @@ EXPLANATION = (
     "takes the suffix-0 branch and one module is written. "
     "(R6) the emission sites of one numbered name template (`inherited%i__%s`: formal parameter of __init__ and argument of the parent's __init__) stand under the same schema predicates. Not decided: that the generated text is valid Python beyond identifiers, attribute/constructor argument order in detail, "
     "select members and enumeration items being complete."
-    " (R7) the scheduler of the defined-type classes waits for the type whose name the class-header emitter prints as the base class (same expression of the type on both sides): the emission order is a topological order of the base relation, which Python needs at import.")
+    " (R7) the scheduler of the defined-type classes waits for the type whose name the class-header emitter prints as the base class (same expression of the type on both sides): the emission order is a topological order of the base relation, which Python needs at import."
+    " (R2s) the keyword look-up compares the word with every table entry: a scan that stops early is accepted only if the table is sorted.")
 
 WFLAGS = ("-Wno-everything", "-Wimplicit-function-declaration", "-Wint-conversion", "-Wincompatible-pointer-types", "-Wreturn-type")
 GROUPS = ("implicit-function-declaration", "int-conversion", "incompatible-pointer-types", "return-type")
@@ -201,6 +202,33 @@ def r2_keywords(prog, res):
     ok = len(cmpc) == 1
     res.add("R2.keyword_lookup", "R2|src/exp2python/src/classes_python.c|is_python_keyword|lookup", f.where(), ok,
             "the table is searched with strcmp over all entries" if ok else "is_python_keyword no longer compares the word with each table entry")
+    # ---- the search really visits every entry: a scan that gives up early (`if( cmp < 0 ) break;`) is only right for a sorted table
+    order = []
+    for x in f.walk():
+        if x["k"] == "Var" and x.get("ch"):
+            ini = strip(x["ch"][0])
+            if ini is not None and ini["k"] == "InitList":
+                order = [strip(c)["s"] for c in ini["ch"] if strip(c) is not None and strip(c)["k"] == "Str"]
+    loops = [lp for lp in f.walk() if lp["k"] in ("For", "While")]
+    early = []
+    for lp in loops:
+        body = lp["ch"][-1]
+        for y in walk(body) if body is not None else []:
+            if y["k"] == "Break":
+                early.append(y)
+            if y["k"] == "Return" and y.get("ch") and y["ch"][0] is not None:
+                v = strip(y["ch"][0])
+                while v is not None and v["k"] == "Cast" and v.get("ch") and "val" not in v:
+                    v = strip(v["ch"][0])
+                if v is not None and v.get("val") == 0:
+                    early.append(y)
+    is_sorted = order == sorted(order)
+    ok = not early or is_sorted
+    res.add("R2.keyword_scan_complete", "R2|src/exp2python/src/classes_python.c|is_python_keyword|scan", f.where(early[0]) if early else f.where(), ok,
+            "the scan over the %d table entries ends only at a match or at the end of the table%s" % (len(order), "" if not early else " (it stops early, and the table is sorted)") if ok else
+            "the scan gives up before the end of the table (line %s) although the table is not sorted (`%s` follows `%s`): the entries after the "
+            "first one that sorts above the word are never compared - `property` is no longer recognised and an entity of that name rebinds the builtin"
+            % (early[0]["l"], next((b for a, b in zip(order, order[1:]) if b < a), "?"), next((a for a, b in zip(order, order[1:]) if b < a), "?")))
     # ---- escape routing
     n = 0
     keys = {}
